@@ -162,14 +162,15 @@ func runC11(c *ShardCtx) {
 	}
 	// cross family (cross.go): every construct x every flag set, every block in turn failing
 	{
-		cn := 3
-		if c.Thorough() {
-			cn = 4
-		}
-		if !runCross(c, &idx, &crossSpec{maxSize: cn, gens: gens16, inputs: crossInputsSmall, opts: []rtapi.RunOpts{{MaxExpr: 600, Filename: "f.txt"}, {MaxExpr: 600, NoRecover: true}},
+		if !runCross(c, &idx, &crossSpec{maxSize: 3, gens: gens16, inputs: crossInputsSmall, opts: []rtapi.RunOpts{{MaxExpr: 600, Filename: "f.txt"}, {MaxExpr: 600, NoRecover: true}},
 			scripts: crossFaultScripts, nontrivial: nontriv, cmp: core.CmpOpts{SkipLog: true}}) {
 			return
 		}
+	}
+	if c.Thorough() {
+		// (the 4-node bodies of the cross family come after the skeleton enumeration)
+		defer runCross(c, &idx, &crossSpec{minSize: 4, maxSize: 4, gens: gens16, inputs: crossInputsSmall, opts: []rtapi.RunOpts{{MaxExpr: 600, Filename: "f.txt"}, {MaxExpr: 600, NoRecover: true}},
+			scripts: crossFaultScripts, nontrivial: nontriv, cmp: core.CmpOpts{SkipLog: true}})
 	}
 	for _, body := range en.UpTo(n) {
 		idx++
